@@ -1282,7 +1282,7 @@ Lemma roots_good : forall rs st order, Inv c st order -> incl rs roots ->
   (forall d, nth_error (gmap st) d <> Some DISCOVERED) ->
   Good (simplify_roots c (S (num_gates c)) rs st).
 Proof.
-  induction rs as [|r rs IH]; intros st order I Hsub Hnd; simpl; [exact Logic.I|].
+  induction rs as [|r rs IH]; intros st order I Hsub Hnd; cbn [simplify_roots]; [exact Logic.I|].
   assert (Hsub' : incl rs roots) by (intros x Hx; apply Hsub; right; exact Hx).
   unfold get_gate_no. destruct (latom r) as [ | i | g | ] eqn:Er; try (eapply IH; eauto).
   assert (Hgood : Good (inner c (S (num_gates c)) g st)).
@@ -1290,7 +1290,8 @@ Proof.
     - eapply Reach_root; [apply Hsub; left; reflexivity | exact Er].
     - intros d Hdd. exfalso. exact (Hnd d Hdd).
     - assert (length (undefs st) <= length (gmap st)).
-      { unfold undefs. eapply Nat.le_trans; [apply filter_length_le|]. rewrite seq_length. lia. }
+      { rewrite <- (seq_length (length (gmap st)) 0). apply NoDup_incl_length; [apply undefs_NoDup|].
+        intros x Hx. unfold undefs in Hx. apply filter_In in Hx. tauto. }
       rewrite (inv_len _ _ _ I) in H. lia. }
   destruct (inner c (S (num_gates c)) g st) as [st1|e| |] eqn:Ei; try exact Hgood.
   destruct (inner_spec c _ _ _ _ _ I Ei) as [o1 [I1 [E1 _]]].
@@ -1313,18 +1314,273 @@ Proof.
   - unfold simplify in E.
     pose proof (roots_good roots _ _ (Inv_init c) (incl_refl _)) as Hg.
     destruct (simplify_roots c (S (num_gates c)) roots _) as [st|e| |] eqn:Es; try discriminate.
-    + destruct st; discriminate.
-    + inversion E. subst. apply Hg. intros d Hd. simpl in Hd. apply nth_error_In in Hd. apply repeat_spec in Hd. discriminate.
+    inversion E. subst. apply Hg. intros d Hd. simpl in Hd. apply nth_error_In in Hd. apply repeat_spec in Hd. discriminate.
   - unfold simplify in E.
     pose proof (roots_good roots _ _ (Inv_init c) (incl_refl _)) as Hg.
     destruct (simplify_roots c (S (num_gates c)) roots _) as [st|e| |] eqn:Es; try discriminate.
-    + destruct st; discriminate.
-    + apply Hg. intros d Hd. simpl in Hd. apply nth_error_In in Hd. apply repeat_spec in Hd. discriminate.
+    apply Hg. intros d Hd. simpl in Hd. apply nth_error_In in Hd. apply repeat_spec in Hd. discriminate.
   - unfold simplify in E.
     pose proof (roots_good roots _ _ (Inv_init c) (incl_refl _)) as Hg.
     destruct (simplify_roots c (S (num_gates c)) roots _) as [st|e| |] eqn:Es; try discriminate.
-    + destruct st; discriminate.
-    + apply Hg. intros d Hd. simpl in Hd. apply nth_error_In in Hd. apply repeat_spec in Hd. discriminate.
+    apply Hg. intros d Hd. simpl in Hd. apply nth_error_In in Hd. apply repeat_spec in Hd. discriminate.
 Qed.
 
 End Total.
+
+(* ------------------------------------------------------------------ *)
+(** ** The executable closure [close] is complete: [reach] and [on_cycle_b]
+       decide reachability *)
+
+Section Closure.
+Variable c : circuit.
+Hypothesis Hchild : forall g h, child c g h -> h < num_gates c.
+
+Definition closedset (S : list nat) : Prop := forall g h, In g S -> child c g h -> In h S.
+
+Lemma NoDup_snoc : forall (l : list nat) x, NoDup l -> ~ In x l -> NoDup (l ++ [x]).
+Proof.
+  induction l as [|y r IH]; intros x Hd Hn; simpl.
+  - constructor; [intros [] | constructor].
+  - inversion Hd as [|? ? Hy Hr]. subst. constructor.
+    + intro Hin. apply in_app_or in Hin. destruct Hin as [Hin|[Hin|[]]]; [contradiction|].
+      subst. apply Hn. left. reflexivity.
+    + apply IH; [exact Hr|]. intro Hin. apply Hn. right. exact Hin.
+Qed.
+
+Lemma add_new_NoDup : forall xs acc, NoDup acc -> NoDup (add_new xs acc).
+Proof.
+  induction xs as [|x r IH]; intros acc H; simpl; [exact H|].
+  destruct (memn x acc) eqn:E; [apply IH; exact H|].
+  apply IH. apply NoDup_snoc; [exact H|]. intro Hin. apply memn_In in Hin. congruence.
+Qed.
+
+Lemma add_new_length : forall xs acc, length acc <= length (add_new xs acc).
+Proof.
+  induction xs as [|x r IH]; intros acc; simpl; [lia|].
+  destruct (memn x acc); [apply IH|].
+  eapply Nat.le_trans; [|apply IH]. rewrite app_length. simpl. lia.
+Qed.
+
+Lemma add_new_same : forall xs acc, (forall x, In x xs -> In x acc) -> add_new xs acc = acc.
+Proof.
+  induction xs as [|x r IH]; intros acc H; simpl; [reflexivity|].
+  assert (E : memn x acc = true) by (apply memn_In; apply H; left; reflexivity).
+  rewrite E. apply IH. intros y Hy. apply H. right. exact Hy.
+Qed.
+
+Lemma add_new_grow : forall xs acc x, In x xs -> ~ In x acc -> length acc < length (add_new xs acc).
+Proof.
+  induction xs as [|y r IH]; intros acc x Hx Hn; [destruct Hx|]. simpl.
+  destruct (memn y acc) eqn:E.
+  - destruct Hx as [Hx|Hx]; [subst; apply memn_In in E; contradiction|]. eapply IH; eauto.
+  - eapply Nat.lt_le_trans; [|apply add_new_length]. rewrite app_length. simpl. lia.
+Qed.
+
+Lemma close_incl : forall fuel acc x, In x acc -> In x (close c fuel acc).
+Proof.
+  induction fuel as [|f IH]; intros acc x H; simpl; [exact H|].
+  apply IH. apply add_new_In. right. exact H.
+Qed.
+
+Lemma close_fix : forall fuel acc, closedset acc -> close c fuel acc = acc.
+Proof.
+  induction fuel as [|f IH]; intros acc H; simpl; [reflexivity|].
+  rewrite add_new_same; [apply IH; exact H|].
+  intros x Hx. apply in_flat_map in Hx. destruct Hx as [g [Hg Hx]]. apply succs_child in Hx. eauto.
+Qed.
+
+Lemma full_closed : forall acc, NoDup acc -> (forall x, In x acc -> x < num_gates c) ->
+  num_gates c <= length acc -> closedset acc.
+Proof.
+  intros acc Hd Hb Hl g h Hg Hc.
+  assert (Hi : incl (seq 0 (num_gates c)) acc).
+  { apply NoDup_length_incl; [exact Hd | rewrite seq_length; exact Hl |].
+    intros x Hx. apply in_seq. specialize (Hb x Hx). lia. }
+  apply Hi. apply in_seq. specialize (Hchild g h Hc). lia.
+Qed.
+
+Lemma close_closed : forall fuel acc, NoDup acc -> (forall x, In x acc -> x < num_gates c) ->
+  num_gates c - length acc <= fuel -> closedset (close c fuel acc).
+Proof.
+  induction fuel as [|f IH]; intros acc Hd Hb Hl; simpl.
+  - apply full_closed; auto. lia.
+  - set (new := flat_map (succs c) acc).
+    assert (Hbn : forall x, In x new -> x < num_gates c).
+    { intros x Hx. apply in_flat_map in Hx. destruct Hx as [g [_ Hx]]. apply succs_child in Hx. eauto. }
+    destruct (forallb (fun x => memn x acc) new) eqn:E.
+    + (* nothing new: [acc] is closed *)
+      rewrite forallb_forall in E.
+      assert (Hc : closedset acc).
+      { intros g h Hg Hch. apply memn_In. apply E. apply in_flat_map. exists g. split; [exact Hg|].
+        apply succs_child. exact Hch. }
+      rewrite add_new_same by (intros x Hx; apply memn_In; apply E; exact Hx).
+      rewrite close_fix by exact Hc. exact Hc.
+    + assert (Hex : exists x, In x new /\ ~ In x acc).
+      { destruct (forallb_forall (fun x => memn x acc) new) as [_ F].
+        destruct (existsb (fun x => negb (memn x acc)) new) eqn:Ex.
+        - apply existsb_exists in Ex. destruct Ex as [x [Hx Hm]]. exists x. split; [exact Hx|].
+          intro Hin. apply memn_In in Hin. rewrite Hin in Hm. discriminate.
+        - exfalso. rewrite F in E; [discriminate|]. intros x Hx.
+          destruct (memn x acc) eqn:Em; [reflexivity|].
+          assert (existsb (fun x => negb (memn x acc)) new = true).
+          { apply existsb_exists. exists x. rewrite Em. auto. }
+          congruence. }
+      destruct Hex as [x [Hx Hn]]. apply IH.
+      * apply add_new_NoDup. exact Hd.
+      * intros y Hy. apply add_new_In in Hy. destruct Hy; auto.
+      * pose proof (add_new_grow new acc x Hx Hn). lia.
+Qed.
+
+End Closure.
+
+Section Complete.
+Variable c : circuit.
+Variable roots : list lit.
+Hypothesis Hclosed : Closed c roots.
+
+Lemma reach_complete : forall g, Reach c roots g -> In g (reach c roots).
+Proof.
+  destruct Hclosed as [H1 H2]. unfold reach.
+  set (A0 := add_new (gate_atoms roots) []).
+  assert (Hd : NoDup A0) by (apply add_new_NoDup; constructor).
+  assert (Hb : forall x, In x A0 -> x < num_gates c).
+  { intros x Hx. apply add_new_In in Hx. destruct Hx as [Hx|[]].
+    apply gate_atoms_In in Hx. destruct Hx as [l [Hl E]]. eauto. }
+  pose proof (close_closed c H2 (num_gates c) A0 Hd Hb ltac:(lia)) as Hc.
+  intros g H. induction H as [r g Hr Hg | g h _ IH Hch].
+  - apply close_incl. apply add_new_In. left. apply gate_atoms_In. eauto.
+  - eapply Hc; eauto.
+Qed.
+
+Lemma on_cycle_complete : forall g h, g < num_gates c -> Path c g h ->
+  In h (close c (num_gates c) (add_new (succs c g) [])).
+Proof.
+  destruct Hclosed as [H1 H2]. intros g h Hg.
+  set (A0 := add_new (succs c g) []).
+  assert (Hd : NoDup A0) by (apply add_new_NoDup; constructor).
+  assert (Hb : forall x, In x A0 -> x < num_gates c).
+  { intros x Hx. apply add_new_In in Hx. destruct Hx as [Hx|[]]. apply succs_child in Hx. eauto. }
+  pose proof (close_closed c H2 (num_gates c) A0 Hd Hb ltac:(lia)) as Hc.
+  intros P. induction P as [h Hch | h h' _ IH Hch].
+  - apply close_incl. apply add_new_In. left. apply succs_child. exact Hch.
+  - eapply Hc; eauto.
+Qed.
+
+(** the Prop behind [should_err_b] *)
+Definition ShouldErr : Prop :=
+  exists g, Reach c roots g /\
+    (Path c g g \/ exists gt l, nth_error (gates c) g = Some gt /\ In l (gins gt) /\
+                                unknown_input_b (n_inputs c) l = true).
+
+Theorem should_err_b_spec : should_err_b c roots = true <-> ShouldErr.
+Proof.
+  unfold should_err_b, ShouldErr. rewrite existsb_exists. split.
+  - intros [g [Hg Hb]]. exists g. split; [apply reach_sound; exact Hg|].
+    apply orb_true_iff in Hb. destruct Hb as [Hb|Hb].
+    + left. apply on_cycle_sound. exact Hb.
+    + right. destruct (nth_error (gates c) g) as [gt|]; [|discriminate].
+      apply existsb_exists in Hb. destruct Hb as [l [Hl Hu]]. exists gt, l. auto.
+  - intros [g [Hg Hb]]. exists g. split; [apply reach_complete; exact Hg|].
+    apply orb_true_iff. destruct Hb as [Hb|[gt [l [Hgt [Hl Hu]]]]].
+    + left. unfold on_cycle_b. apply memn_In. apply on_cycle_complete; [|exact Hb].
+      apply (Reach_lt c roots Hclosed). exact Hg.
+    + right. rewrite Hgt. apply existsb_exists. exists l. auto.
+Qed.
+
+Lemma err_answer_complete : forall l, ErrOk c roots l -> err_answer_b c roots l = true.
+Proof.
+  intros l H. unfold err_answer_b. apply andb_true_iff. split.
+  - apply should_err_b_spec. destruct H as [[g [El [Hr Hp]]]|[Hu [g [gt [Hr [Hgt Hl]]]]]].
+    + exists g. auto.
+    + exists g. split; [exact Hr|]. right. exists gt, l. auto.
+  - unfold err_ok_b. destruct H as [[g [El [Hr Hp]]]|[Hu [g [gt [Hr [Hgt Hl]]]]]].
+    + subst l. simpl. apply andb_true_iff. split.
+      * apply memn_In. apply reach_complete. exact Hr.
+      * unfold on_cycle_b. apply memn_In. apply on_cycle_complete; [|exact Hp].
+        apply (Reach_lt c roots Hclosed). exact Hr.
+    + assert (Hex : existsb (fun g0 => match nth_error (gates c) g0 with
+                                       | Some gt0 => existsb (fun x => atom_eqb (latom l) (latom x)) (gins gt0)
+                                       | None => false end) (reach c roots) = true).
+      { apply existsb_exists. exists g. split; [apply reach_complete; exact Hr|]. rewrite Hgt.
+        apply existsb_exists. exists l. split; [exact Hl | apply atom_eqb_refl]. }
+      unfold unknown_input_b in Hu. destruct (latom l) eqn:Ea; try discriminate.
+      * rewrite Hex. unfold unknown_input_b. rewrite Ea, Hu. reflexivity.
+      * rewrite Hex. unfold unknown_input_b. rewrite Ea. reflexivity.
+Qed.
+
+(** Every answer of the model on a closed circuit passes the audit that the
+    driver applies to the implementation; no index error, no fuel exhaustion. *)
+Theorem simp_total :
+  match simplify c roots with
+  | Ok (c', gm) => ok_answer_b c roots c' gm = true
+  | Err l => err_answer_b c roots l = true
+  | Crash => False
+  | Fuel => False
+  end.
+Proof.
+  pose proof (simp_answer c roots Hclosed) as H.
+  destruct (simplify c roots) as [[c' gm]|l| |]; auto. apply err_answer_complete. exact H.
+Qed.
+
+(** [simp_err_iff]: the model answers [Err] exactly when the fragment reachable
+    from the roots has a cycle or mentions an unknown input *)
+Theorem simp_err_iff : (exists l, simplify c roots = Err l) <-> ShouldErr.
+Proof.
+  pose proof simp_total as H. split.
+  - intros [l E]. rewrite E in H. apply should_err_b_spec.
+    unfold err_answer_b in H. apply andb_true_iff in H. tauto.
+  - intro S. apply should_err_b_spec in S.
+    destruct (simplify c roots) as [[c' gm]|l| |]; try contradiction; [|eauto].
+    unfold ok_answer_b in H. rewrite S in H. simpl in H. discriminate.
+Qed.
+
+End Complete.
+
+(* ------------------------------------------------------------------ *)
+(** ** The hypotheses are satisfiable: concrete runs *)
+
+Definition ex_unit_test : circuit :=   (* the circuit of the crate's test [tests::simplify] *)
+  mkCircuit 3 [mkGate Xor [input_lit true 0; input_lit false 1; input_lit false 2];
+               mkGate And [gate_lit false 0]].
+
+Example ex_unit_test_closed : closed_b ex_unit_test [gate_lit false 1] = true.
+Proof. reflexivity. Qed.
+
+Example ex_unit_test_result :
+  simplify ex_unit_test [gate_lit false 1] =
+  Ok (mkCircuit 3 [mkGate Xor [input_lit false 0; input_lit false 1; input_lit false 2]],
+      [gate_lit true 0; gate_lit true 0]).
+Proof. reflexivity. Qed.
+
+(** structural hashing, complement elimination and a collapse in one run *)
+Definition ex_shared : circuit :=
+  mkCircuit 2 [mkGate And [input_lit true 0; input_lit false 1];
+               mkGate And [input_lit false 1; input_lit true 0; TRUE];
+               mkGate Or [gate_lit false 0; gate_lit true 1; input_lit false 0];
+               mkGate Xor [gate_lit false 2; gate_lit false 0; input_lit false 1; input_lit false 1]].
+
+Example ex_shared_result :
+  simplify ex_shared [gate_lit true 3] =
+  Ok (mkCircuit 2 [mkGate And [input_lit true 0; input_lit false 1]],
+      [gate_lit false 0; gate_lit false 0; TRUE; gate_lit true 0]).
+Proof. reflexivity. Qed.
+
+Definition ex_cycle : circuit :=
+  mkCircuit 1 [mkGate And [input_lit false 0; gate_lit true 1]; mkGate Or [gate_lit false 0]].
+
+Example ex_cycle_closed : closed_b ex_cycle [gate_lit false 1] = true.
+Proof. reflexivity. Qed.
+Example ex_cycle_result : simplify ex_cycle [gate_lit false 1] = Err (gate_lit false 1).
+Proof. reflexivity. Qed.
+Example ex_cycle_should_err : should_err_b ex_cycle [gate_lit false 1] = true.
+Proof. reflexivity. Qed.
+
+Example ex_unknown_result :
+  simplify (mkCircuit 1 [mkGate And [FALSE; input_lit true 1]]) [gate_lit false 0] = Err (input_lit true 1).
+Proof. reflexivity. Qed.
+
+Theorem simp_err_justified : forall c roots l, Closed c roots -> simplify c roots = Err l ->
+  ErrOk c roots l.
+Proof.
+  intros c roots l Hc E. pose proof (simp_answer c roots Hc) as H. rewrite E in H. exact H.
+Qed.
